@@ -5,7 +5,15 @@
    All theorems are over arbitrary tables (any number and order of routes, each any
    list of name / type / namespace matchers, possibly none) and arbitrary packets
    (message, presence, IQ of any type with or without payload, non-stanza packets),
-   and an arbitrary set [pend] of ids of pending SendIQ requests. *)
+   and an arbitrary set [pend] of ids of pending SendIQ requests.
+   Domain: every route has a handler (a route without one is a nil call when it matches
+   first: configuration error, outside "the handler of the first registered route");
+   the arguments of Packet / StanzaType are ASCII ([ascii], hypothesis of C06_matcher_name /
+   C06_matcher_type): the model's [lower] is strings.ToLower there and only there (Go also
+   maps U+0130, U+212A, U+017F to ASCII letters; the harness draws such names and compares
+   with Go's own lower-casing); SMAnswer is one of the non-stanza packets for every Sender
+   but a *Client (whose retransmission before routing is C10's).  The reply is what is
+   handed to Sender.Send; its result is discarded by the code and not part of the text. *)
 From Coq Require Import List ZArith NArith Bool.
 From XV Require Import Lib.Sx Model.Router Proofs.RouterP.
 Import ListNotations.
@@ -51,15 +59,17 @@ Proof. exact empty_route_accepts. Qed.
 
 (* "matchers behave as documented" — packet name (argument lower-cased) *)
 Theorem C06_matcher_name : forall (s : str) (p : pkt),
+  ascii s ->
   (m_match (b_packet s) p = true <-> kind_name p = lower s) /\
   (forall a, kind_name (PMessage a) = s_message) /\
   (forall a, kind_name (PPresence a) = s_presence) /\
   (forall a ns any, kind_name (PIQ a ns any) = s_iq) /\
   (forall k, kind_name (POther k) = []).
-Proof. intros s p. split; [apply name_matcher_sem | exact kind_name_def]. Qed.
+Proof. intros s p _. split; [apply name_matcher_sem | exact kind_name_def]. Qed.
 
 (* stanza type, with 'normal' as the default message type; never a non-stanza packet *)
 Theorem C06_matcher_type : forall (l : list str) (p : pkt),
+  Forall ascii l ->
   (m_match (b_stanza_type l) p = true <->
      exists ty, stanza_type p = Some ty /\ In ty (map lower l)) /\
   (forall a, a_type a = [] -> stanza_type (PMessage a) = Some s_normal) /\
@@ -67,7 +77,14 @@ Theorem C06_matcher_type : forall (l : list str) (p : pkt),
   (forall a, stanza_type (PPresence a) = Some (a_type a)) /\
   (forall a ns any, stanza_type (PIQ a ns any) = Some (a_type a)) /\
   (forall k, stanza_type (POther k) = None).
-Proof. intros l p. split; [apply type_matcher_sem | exact stanza_type_def]. Qed.
+Proof. intros l p _. split; [apply type_matcher_sem | exact stanza_type_def]. Qed.
+
+(* the domain hypothesis is satisfiable, and [lower] does there what strings.ToLower does:
+   "IQ" / "Chat" in any letter case *)
+Example C06_ascii_example :
+  ascii [73;81] /\ lower [73;81] = s_iq /\ Forall ascii [[67;104;65;116]] /\
+  map lower [[67;104;65;116]] = [[99;104;97;116]].
+Proof. repeat split; repeat constructor. Qed.
 
 (* IQ payload namespace: an IQ with a payload — typed (Payload) or, for payload types
    the stanza registry does not know, generic (Any) — whose namespace is, verbatim, one of
